@@ -150,3 +150,10 @@ func VerifInflightRequests(m any) []*http.Request {
 	}
 	return out
 }
+
+// VerifUsesRolloutGroup reports which side of the rollout split the service puts a request on right now.
+func VerifUsesRolloutGroup(s *Service, r *http.Request) bool {
+	active, rollout, _ := s.loadBalancers()
+	lb := s.loadBalancerForRequest(r)
+	return rollout != nil && lb == rollout && lb != active
+}
